@@ -43,7 +43,22 @@ fn do_formatting(ctx: &mut LspContext, uri: &Url) -> Option<Vec<TextEdit>> {
             if let Some(old_file) = tree.try_get_file(&path) {
                 let old_text = old_file.file.source();
                 let new_text = format(path, tree.clone(), FormattingOptions::default());
-                get_text_edits(old_text, &new_text)
+                if old_text.contains('\r') {
+                    // The formatted text has plain newlines. A carriage return is part of the line ending for the client,
+                    // not a column of the line, so it can't be edited away piece by piece: replace the whole text.
+                    if old_text == new_text {
+                        vec![]
+                    } else {
+                        let mut end = RangeKeeper::new();
+                        end.push(&old_text.replace('\r', ""));
+                        vec![TextEdit {
+                            range: rng(0, 0, end.line, end.character),
+                            new_text,
+                        }]
+                    }
+                } else {
+                    get_text_edits(old_text, &new_text)
+                }
             } else {
                 vec![]
             }
